@@ -961,3 +961,258 @@ class WOFF2GlyphDispatch(Contract):
                    kind_e == kind_d, eq(want, got), ok_objs, ok_gids)
 
     ensures = [prop("count-stored-and-same-steps-both-sides", lambda a, old, r: WOFF2GlyphDispatch._post(a, r))]
+
+
+@contract
+class WOFF2ComponentsLoop(Contract):
+    """WOFF2GlyfTable._encodeComponents then _decodeComponents for one to three components, with
+    and without a program: every component but the last is compiled with MORE_COMPONENTS and
+    without the instructions flag, the last without MORE and with the instructions flag exactly
+    when the glyph has a program; the composite stream gains the records in order after what
+    earlier glyphs wrote; instructions are written exactly when there is a program.  The
+    decoder reads records until one lacks MORE (flags symbolic there: any record may carry the
+    instructions flag), reads instructions exactly when some record had the flag, and leaves the
+    stream at the next glyph's data."""
+    module = "fontTools.ttLib.woff2"
+    qualname = "WOFF2GlyfTable._decodeComponents"
+    props = ("C04", "C14")
+    variants = tuple((n, prog) for n in (1, 2, 3) for prog in (False, True))
+    level = "PF"
+    assumptions = ("GlyphComponent.compile / decompile are recorders here (own contracts: GlyphComponentCompile, GlyphComponentDecompile)",)
+
+    def rebind(self):
+        outer = self
+
+        class _Component:
+            def decompile(self, data, glyfTable):
+                k = len(outer._decoded)
+                outer._decoded.append((self, data, glyfTable))
+                more = 1 if k < outer._n - 1 else 0
+                return more, outer._have[k], data[4:]
+
+        class _glyf:
+            GlyphComponent = _Component
+        self._glyf = _glyf
+        return std("struct", "len", "bytes", "bytearray", "array", "int", "byteord", "bytechr")
+
+    def args(self, S, variant):
+        n, prog = variant
+        self._n, self._decoded = n, []
+        self._have = [S.int("haveInstr%d" % k, 0, 1) for k in range(n)]
+        compiled, calls = [], []
+
+        class _C:
+            def __init__(self, k):
+                self.k = k
+
+            def compile(self, more, haveInstructions, glyfTable):
+                compiled.append((self.k, more, haveInstructions, glyfTable))
+                return b"CMP" + bytes([48 + self.k])
+
+        class _G:
+            pass
+        g = _G()
+        g.components = [_C(k) for k in range(n)]
+        if prog:
+            g.program = "program"
+        cls = self.mod.WOFF2GlyfTable
+
+        class _T(cls):
+            def _encodeInstructions(self, glyph):
+                calls.append(("enc-instructions", glyph, self.compositeStream))
+
+            def _decodeInstructions(self, glyph):
+                calls.append(("dec-instructions", glyph, self.compositeStream))
+        enc = _T.__new__(_T)
+        enc.compositeStream = b"PREV"
+        return dict(self=enc, glyph=g, _n=n, _prog=prog, _compiled=compiled, _calls=calls, _T=_T, _G=_G, _have=self._have)
+
+    def call(self, f, a):
+        T = a._T
+        T._encodeComponents(a.self, a.glyph)
+        stream = a.self.compositeStream
+        enc_calls = list(a._calls)
+        del a._calls[:]
+        dec = T.__new__(T)
+        dec.compositeStream = stream[4:] + b"NEXT"
+        back = a._G()
+        real = self.mod.getTableModule          # patched here (not in rebind) so that a native replay sees the recorder too
+        self.mod.getTableModule = lambda tag: {"glyf": self._glyf}[tag]
+        try:
+            f(dec, back)
+        finally:
+            self.mod.getTableModule = real
+        return stream, enc_calls, list(a._calls), back, dec, list(self._decoded)
+
+    @staticmethod
+    def _post(a, r):
+        stream, enc_calls, dec_calls, back, dec, decoded = r
+        n = a._n
+        want = b"PREV" + b"".join(b"CMP" + bytes([48 + k]) for k in range(n))
+        if bytes(_items(stream)) != want:
+            return False
+        if [c[0] for c in a._compiled] != list(range(n)) or any(c[3] is not a.self for c in a._compiled):
+            return False
+        flags_ok = all(bool(c[1]) == (c[0] < n - 1) and bool(c[2]) == (a._prog and c[0] == n - 1) for c in a._compiled)
+        enc_ok = (len(enc_calls) == 1 and enc_calls[0][1] is a.glyph and bytes(_items(enc_calls[0][2])) == want) if a._prog else not enc_calls
+        if not (flags_ok and enc_ok):
+            return False
+        if len(decoded) != n or len(back.components) != n or any(x is not d[0] for x, d in zip(back.components, decoded)):
+            return False
+        if any(bytes(_items(d[1])) != want[4 + 4 * k:] + b"NEXT" or d[2] is not dec for k, d in enumerate(decoded)):
+            return False
+        any_instr = Or(*[eq(h, 1) for h in a._have])
+        if dec_calls:
+            shape = len(dec_calls) == 1 and dec_calls[0][1] is back and bytes(_items(dec_calls[0][2])) == b"NEXT"
+            return And(shape, any_instr, bytes(_items(dec.compositeStream)) == b"NEXT")
+        return And(Not(any_instr), bytes(_items(dec.compositeStream)) == b"NEXT")
+
+    ensures = [prop("records-in-order-flags-on-the-last-and-read-back", lambda a, old, r: WOFF2ComponentsLoop._post(a, r))]
+
+
+@contract
+class WOFF2GlyfContainerRoundTrip(Contract):
+    """WOFF2GlyfTable.transform then reconstruct for 1, 8, 9 and 33 glyphs, stream contents
+    symbolic, with and without overlap bits, with and without a glyph order: the header says
+    version 0, optionFlags bit 0 exactly when some overlap bit is set, the glyph count, head's
+    indexToLocFormat and the seven stream sizes (the bbox size includes the bitmap of
+    4 * ceil(n / 32) bytes); the seven streams follow in the W3C order, then the overlap bitmap
+    of ceil(n / 8) bytes exactly when flagged, and nothing else; maxp.numGlyphs is updated.
+    reconstruct gives every stream back to the glyph decoder unchanged (nContour as signed
+    big-endian words, both bitmaps split off), sets head.indexToLocFormat, decodes glyph ids
+    0..n-1 in order under the font's glyph names (or .notdef, glyph00001, ... without an
+    order), and refuses - TTLibError - data with one byte missing or one byte too many."""
+    module = "fontTools.ttLib.woff2"
+    qualname = "WOFF2GlyfTable.reconstruct"
+    props = ("C04",)
+    variants = tuple((n, ov, order, cut) for n in (1, 8, 9, 33) for ov in (False, True) for order in (True, False) for cut in (0,)) + \
+        ((9, True, True, -1), (9, True, True, 1), (9, False, True, -1), (9, False, True, 1))
+    level = "PF"
+    deadline_s = 600
+    expect_exceptional_only = ((9, True, True, -1), (9, True, True, 1), (9, False, True, -1), (9, False, True, 1))
+    only_raises = (TTLibError,)
+    assumptions = ("_encodeGlyph / _decodeGlyph are recorders here (own contract: WOFF2GlyphDispatch and the per-part codecs)",)
+
+    def rebind(self):
+        from pyvc.models import sstruct_shadow
+        return dict(std("struct", "len", "bytes", "bytearray", "array", "int", "byteord", "bytechr", "bytesjoin"), sstruct=sstruct_shadow())
+
+    STREAMS = ("nContourStream", "nPointsStream", "flagStream", "glyphStream", "compositeStream", "bboxStream", "instructionStream")
+
+    def args(self, S, variant):
+        n, ov, order, cut = variant
+        cls = self.mod.WOFF2GlyfTable
+        chunks = {}
+        for k in range(n):
+            chunks[k] = dict(nContourStream=S.bytes("nc%d" % k, 2), nPointsStream=S.bytes("np%d" % k, k % 3),
+                             flagStream=S.bytes("fl%d" % k, 1), glyphStream=S.bytes("gl%d" % k, 2 if k < 2 else 0),
+                             compositeStream=b"", bboxStream=S.bytes("bb%d" % k, 8 if k == 0 else 0),
+                             instructionStream=S.bytes("in%d" % k, 1 if k == n - 1 else 0))
+        decoded = []
+
+        class _T(cls):
+            def _encodeGlyph(self, glyphID):
+                for name, b in chunks[glyphID].items():
+                    setattr(self, name, getattr(self, name) + b)
+                if glyphID == 0:
+                    self.bboxBitmap[0] |= 0x80
+                if ov and glyphID in (0, n - 1):
+                    self.overlapSimpleBitmap[glyphID >> 3] |= 0x80 >> (glyphID & 7)
+
+            def _decodeGlyph(self, glyphID):
+                decoded.append(glyphID)
+                return "decoded-%d" % glyphID
+
+        class _Obj:
+            pass
+        head, maxp = _Obj(), _Obj()
+        head.indexToLocFormat = S.int("indexToLocFormat", 0, 1)
+        maxp.numGlyphs = 4242
+        names = ["name%d" % k for k in range(n)]
+
+        class _Font(dict):
+            def getGlyphOrder(self):
+                return list(names) if order else None
+        enc = _T.__new__(_T)
+        enc.glyphs = {nm: None for nm in names}
+        enc.glyphOrder = list(names)
+        return dict(self=enc, _n=n, _ov=ov, _order=order, _cut=cut, _T=_T, _chunks=chunks, _decoded=decoded,
+                    _font=_Font(head=head, maxp=maxp), _Font=_Font, _Obj=_Obj, _names=names, _idx=head.indexToLocFormat)
+
+    raises = {TTLibError: lambda a: a._cut != 0}
+
+    def call(self, f, a):
+        T = a._T
+        data = T.transform(a.self, a._font)
+        a._maxp = a._font["maxp"].numGlyphs
+        dec = T.__new__(T)
+        head2 = a._Obj()
+        head2.indexToLocFormat = 7
+        font2 = a._Font(head=head2)
+        if a._cut < 0:
+            data = data[:-1]
+        elif a._cut > 0:
+            data = data + b"\x00"
+        f(dec, data, font2)
+        return data, dec, head2
+
+    @staticmethod
+    def _post(a, r):
+        data, dec, head2 = r
+        n = a._n
+        its = _items(data)
+        streams = {s: [] for s in WOFF2GlyfContainerRoundTrip.STREAMS}
+        for k in range(n):
+            for s in streams:
+                streams[s] += _items(a._chunks[k][s])
+        bm = [0] * (((n + 31) >> 5) << 2)
+        bm[0] = 0x80
+        ovb = [0] * ((n + 7) >> 3)
+        if a._ov:
+            for g in (0, n - 1):
+                ovb[g >> 3] |= 0x80 >> (g & 7)
+        body = []
+        sizes = []
+        for s in WOFF2GlyfContainerRoundTrip.STREAMS:
+            part = (bm + streams[s]) if s == "bboxStream" else streams[s]
+            sizes.append(len(part))
+            body += part
+        tail = ovb if a._ov else []
+        if len(its) != 36 + len(body) + len(tail):
+            return False
+
+        def be(bs):
+            v = 0
+            for b in bs:
+                v = v * 256 + b
+            return v
+        cs = [eq(be(its[0:2]), 0), eq(be(its[2:4]), 1 if a._ov else 0), eq(be(its[4:6]), n), eq(be(its[6:8]), a._idx)]
+        cs += [eq(be(its[8 + 4 * i:12 + 4 * i]), sz) for i, sz in enumerate(sizes)]
+        cs += [eq(x, y) for x, y in zip(its[36:], body + tail)]
+        cs.append(eq(a._maxp, n))
+        # read back
+        for s in WOFF2GlyfContainerRoundTrip.STREAMS:
+            got = getattr(dec, s)
+            if s == "nContourStream":
+                got = list(got)
+                if len(got) != n:
+                    return False
+                for k in range(n):
+                    w = be(streams[s][2 * k:2 * k + 2])
+                    cs.append(eq(got[k], Ite(w >= 32768, w - 65536, w)))
+            else:
+                g = _items(got)
+                if len(g) != len(streams[s]):
+                    return False
+                cs += [eq(x, y) for x, y in zip(g, streams[s])]
+        if list(dec.bboxBitmap) != bm:
+            return False
+        if (dec.overlapSimpleBitmap is None) != (not a._ov) or (a._ov and list(dec.overlapSimpleBitmap) != ovb):
+            return False
+        cs.append(eq(head2.indexToLocFormat, a._idx))
+        names = a._names if a._order else [".notdef"] + ["glyph%05d" % i for i in range(1, n)]
+        cs.append(a._decoded == list(range(n)) and list(dec.glyphs.items()) == [(nm, "decoded-%d" % k) for k, nm in enumerate(names)]
+                  and list(dec.glyphOrder) == names)
+        return And(*cs)
+
+    ensures = [prop("header-streams-bitmaps-and-read-back", lambda a, old, r: WOFF2GlyfContainerRoundTrip._post(a, r))]
